@@ -65,8 +65,6 @@ def gen_xf(rng, path, W, H, fac, cs, std, force_plain=False, op=None):
     trim = 1 if rng.chance(1, 3) else 0
     gray = 1 if rng.chance(1, 6) else 0
     crop = 1 if rng.chance(2, 5) else 0
-    if path == 0 and not std:
-        crop = 0
     nc1 = len(fac) == 1 or (gray and cs == 3 and len(fac) == 3)
     mh = 1 if nc1 else max(f[0] for f in fac)
     mv = 1 if nc1 else max(f[1] for f in fac)
@@ -215,8 +213,11 @@ def gen_tjgrid(rng, thorough):
     multiple of 8 up to 64 in both directions: acceptance must follow the DESTINATION iMCU grid and the result
     must have the requested size"""
     out = []
-    for name in ("441", "411", "422", "440"):
-        fac = STD[name]
+    NONSTD_TJ = {"ns444-2x1": [(2, 1)] * 3, "ns444-1x3": [(1, 3)] * 3, "ns422": [(2, 2), (1, 2), (1, 2)], "ns440": [(2, 2), (2, 1), (2, 1)]}
+    for name in ("441", "411", "422", "440") + tuple(sorted(NONSTD_TJ)):
+        fac = STD[name] if name in STD else NONSTD_TJ[name]
+        if name not in STD and not thorough and rng.chance(1, 2):
+            continue
         for op in ((3, 4, 5, 7, 0, 6) if thorough else (rng.choice([3, 4]), rng.choice([5, 7]), rng.choice([0, 1, 2, 6]))):
             W, H = rng.choice([(72, 80), (80, 72), (96, 72), (75, 83)])
             dw, dh = (H, W) if op in TRANSPOSING else (W, H)
@@ -471,6 +472,8 @@ def run(ctx):
     flavours = ["simd"] if not ctx.thorough() else ["simd", "asan"]
     exes = {fl: ctx.cc("c06", ["c06.c"], fl, libs=("turbojpeg",)) for fl in flavours}
     cases = []
+    if drv and not ctx.replay:
+        run_subsamp(ctx, exes[flavours[0]], drv)
     if ctx.replay:
         r = json.load(open(ctx.replay))
         if r.get("case"):
@@ -491,6 +494,48 @@ def run(ctx):
         if i % 5 == 0:
             cases.append(gen_reslot(rng))
     return run_cases(ctx, cases, exes, drv, flavours)
+
+
+def run_subsamp(ctx, exe, drv):
+    """getSubsamp(): every encodable 3-component layout (factors 1..4, <= 10 blocks per MCU) as YCbCr and RGB,
+    every 1-component layout, a CMYK/YCCK sample -- real header through tj3DecompressHeader vs the model"""
+    rng = ctx.rng.fork()
+    lines = []
+    F = [(h, v) for h in range(1, 5) for v in range(1, 5)]
+    for a in F:
+        lines.append("ss 1 1 %d %d" % a)
+        for b in F:
+            for c in F:
+                if a[0] * a[1] + b[0] * b[1] + c[0] * c[1] <= 10:
+                    lines.append("ss 3 3 %d %d %d %d %d %d" % (a + b + c))
+                    if ctx.thorough() or rng.chance(1, 6):
+                        lines.append("ss 2 3 %d %d %d %d %d %d" % (a + b + c))
+    for _ in range(ctx.n(150, 1500)):
+        fs = [rng.choice(F) for _ in range(4)]
+        if rng.chance(1, 2):
+            fs[3] = fs[0]
+        if rng.chance(1, 2):
+            fs[1] = fs[2] = (1, 1)
+        if sum(h * v for h, v in fs) <= 10:
+            lines.append("ss %d 4 %s" % (rng.choice([4, 5]), " ".join("%d %d" % f for f in fs)))
+    inp = ("\n".join(lines) + "\n").encode()
+    rc, out, err = sh2([exe], input=inp, timeout=900)
+    il = out.decode().split("\n")
+    rc2, out2, err2 = sh2([drv], input=inp, timeout=900)
+    ml = out2.decode().split("\n")
+    if rc != 0 or rc2 != 0 or len(il) < len(lines) or len(ml) < len(lines):
+        ctx.broken_tie("subsamp-stream", "harness/driver failed on the getSubsamp stream rc=%d/%d" % (rc, rc2))
+        return
+    dist = {}
+    for l, a, b in zip(lines, il, ml):
+        if not a.startswith("ss "):
+            ctx.count("subsamp:unencodable", 1, None)
+            continue
+        dist[a] = dist.get(a, 0) + 1
+        ctx.count("subsamp", 1, l)
+        if a != b:
+            ctx.broken_tie("correspondence:getSubsamp", "model and tj3DecompressHeader differ on %s: model=%s impl=%s" % (l, b, a))
+    ctx.cov["getSubsamp_distribution"] = dist
 
 
 def run_cases(ctx, cases, exes, drv, flavours):
@@ -623,14 +668,17 @@ def run_batch(ctx, cases, exes, drv, flavours, tot, base):
                 if m:
                     bad.append(("blocks", m))
             # tj3Transform: a crop origin is acceptable iff it lies on the iMCU grid of the DESTINATION image
-            if path == 0 and is_std_layout(fac, src["cs"]):
+            if path == 0:
+                std_l = is_std_layout(fac, src["cs"])
                 mis = [x for x in xfs if x[4] and (x[9] % dst_imcu(fac, src["cs"], x)[0] or x[11] % dst_imcu(fac, src["cs"], x)[1])]
                 if res == "err Align" and not mis:
                     bad.append(("align-refused", "crop refused as misaligned although its origin is on the %dx%d iMCU grid of the destination"
                                 % dst_imcu(fac, src["cs"], [x for x in xfs if x[4]][0])))
                 if res.startswith("ok") and mis:
-                    bad.append(("align-accepted", "crop with origin (%d,%d) off the %dx%d iMCU grid of the destination was accepted"
-                                % ((mis[0][9], mis[0][11]) + dst_imcu(fac, src["cs"], mis[0]))))
+                    bad.append(("align-accepted" if std_l else "align-accepted:tj-nonstd444",
+                                "crop with origin (%d,%d) off the %dx%d iMCU grid of the destination was accepted%s"
+                                % ((mis[0][9], mis[0][11]) + dst_imcu(fac, src["cs"], mis[0]) +
+                                   ("" if std_l else " (non-standard sampling factors %s that getSubsamp() maps to a TJSAMP level)" % fac,))))
             last_out = outs_i[0] if outs_i else None
             if not res.startswith("ok"):
                 complete = False
@@ -638,7 +686,7 @@ def run_batch(ctx, cases, exes, drv, flavours, tot, base):
             key = "%s:%s" % (["tj", "jt", "inj"][path], kind)
             for cls, b in bad:
                 ctx.violation(b, {"case": line, "stage": si, "identity": meta.get("identity", False), "impl": res[:300]},
-                              signature="%s:%s:%s" % (cls, ["tj", "jt", "inj"][path], OPS[xfs[0][0]]))
+                              signature=cls if "nonstd" in cls else "%s:%s:%s" % (cls, ["tj", "jt", "inj"][path], OPS[xfs[0][0]]))
             if mres is not None:
                 validated += 1
                 if mres != res and not mres.startswith("err CropExt"):
